@@ -310,6 +310,12 @@ class Generator:
                 elif d == "@open":
                     self.do_open(arg, rel, i + 1)
                     i += 1
+                elif d == "@stdspecs":
+                    import stdspecs
+                    self.em.emit(stdspecs.verus_text(), {"kind": "gen", "item": "stdspecs"})
+                    for e in stdspecs.entries():
+                        self.assumptions.append({"kind": "assume_specification", "name": e["name"], "where": "vx/stdspecs.py"})
+                    i += 1
                 elif d == "@leapdata":
                     import leapdata
                     try:
